@@ -5,7 +5,9 @@ douglas_peucker / visvalingam / simplify in its various call forms, and the inpu
 `dist` / `area` (point-wise geometry), flag `wild` (coordinates outside any ENU frame: correspondence only).
 Optional fields of a `trk` case: `nodata` (the track's `no_data_value` attribute; fixes whose coordinates equal it are the readers'
 placeholders), `coords` (`ENU` default, `GEO`, `ECEF`: the class of the positions), `src` (`obj` default: built with Obs/Track;
-`csv`: written to a file and read back with TrackReader.readFromFile), via `network` (Network.simplify on an edge geometry)."""
+`csv`: written to a file and read back with TrackReader.readFromFile), via `network` (Network.simplify on an edge geometry).
+Style `deep-*`: several hundred fixes whose Douglas-Peucker split chain is hundreds of levels deep. A case must be well formed (well_formed():
+what the generators can produce); impl() answers {"harness": why} when the INPUT of a case cannot be built -- never an implementation failure."""
 import itertools, math, os, tempfile, datetime, shutil
 from fractions import Fraction
 from engine import Prop, fbits, bitsf, close, ratstr, parse_rat
@@ -118,6 +120,15 @@ def num_repr(v):
     return repr(float(v)) if isinstance(v, float) else str(v)
 
 
+VW_ALL_MAX_N = 60     # Visvalingam's runs with another choice among equally small triangles are enumerated level by level (Model/SimplifyTie.lean,
+                      # visvalingamAll) for tracks of at most VW_ALL_MAX_N fixes, up to vw_cap(n) states per level; beyond: only the code's own run
+
+
+def vw_cap(n):
+    """states per level: everything for tracks of <= 11 fixes (at most C(9,4) = 126 sets of removed interior fixes), 32 for longer ones"""
+    return 130 if n <= 11 else 32
+
+
 TINY_TOLS = [5e-324, 1e-320, 1e-300, 1e-200, 1.5e-162, 1e-100, 1e-30]
 HUGE_TOLS = [1e154, 1.3407807929942597e154, 1.4e154, 1e200, 1e308, 1.7976931348623157e308]   # eps*eps is infinite from 1.3407807929942597e154 on
 
@@ -136,6 +147,62 @@ def collinear_run(xs, ys):
         if (xs[i + 1] - xs[i]) * (ys[i + 2] - ys[i + 1]) == (xs[i + 2] - xs[i + 1]) * (ys[i + 1] - ys[i]):
             return True
     return False
+
+
+class HarnessCase(Exception):
+    """the harness could not BUILD the input a case describes (plumbing: Obs/Track construction, the CSV file written and read back,
+    the network around an edge geometry). Never an implementation failure of the property: impl() answers {"harness": why}, on which the
+    oracle is silent and the correspondence check reports the case as not built (when the case is well formed)"""
+
+
+def well_formed(case):
+    """is the case one the generators can produce: parallel lists of equal length, and -- for a track made by the CSV reader -- a
+    description the reader can honour (see csv_ok)? mutate() and shrink() only propose well-formed cases: a candidate that the harness
+    itself cannot build says nothing about the implementation"""
+    k = case.get("kind")
+    if k not in ("dp", "vw", "trk"):
+        return True
+    n = len(case["xs"])
+    if len(case["ys"]) != n:
+        return False
+    if k == "trk":
+        if case.get("zs") and len(case["zs"]) != n:
+            return False
+        if case.get("ts") and len(case["ts"]) != n:
+            return False
+        if len(case["rows"]) != n or any(len(r) != len(case["names"]) for r in case["rows"]):
+            return False
+        if case.get("src") == "csv" and not csv_ok(case):
+            return False
+    return True
+
+
+def csv_ok(case):
+    """does TrackReader.readFromFile make exactly the track the case describes from the file mk_trk_csv writes? The reader turns a line
+    whose E or N field is NA -- or whose int(E) or int(N) equals no_data_value -- into a placeholder fix at (nd, nd, nd); so every fix
+    of the case is either such a placeholder in all three coordinates (z = 0 when the file has no U column) or has int(x), int(y) != nd;
+    timestamps are whole seconds >= 0 (the file's time format), coordinates finite, no_data_value an int"""
+    nd = case.get("nodata")
+    if not isinstance(nd, int) or isinstance(nd, bool):
+        return False
+    n = len(case["xs"])
+    if n < 1 or "@aire" in case["names"]:
+        return False
+    ts = case.get("ts") or list(range(n))
+    if any((not isinstance(t, int)) or isinstance(t, bool) or t < 0 or t > 4000000000 for t in ts):
+        return False
+    zs = case.get("zs") or [0] * n
+    if len(zs) != n or len(ts) != n:
+        return False
+    for i in range(n):
+        x, y, z = fv(case["xs"][i]), fv(case["ys"][i]), fv(zs[i])
+        if not all(isinstance(v, (int, float)) and not isinstance(v, bool) and math.isfinite(v) for v in (x, y, z)):
+            return False
+        if x == nd and y == nd and z == nd:
+            continue
+        if int(x) == nd or int(y) == nd:
+            return False
+    return True
 
 
 class P(Prop):
@@ -174,6 +241,13 @@ class P(Prop):
         (M, "TV.C16.dp_total_zero_laws", "T3' (termination under rounded arithmetic): on a total order whose arithmetic satisfies six zero laws (x-x=0, 0*x=0, 0+0=0, 0/x=0, x+0=x, sqrt 0=0: true of IEEE doubles on finite values; example: integers with truncating division and integer sqrt) distance_to_segment(A; A, B) computes 0 in either branch of `l == 0`, so douglas_peucker returns on every track for every eps > 0"),
         (M, "TV.C16.dp_correct_any_arithmetic", "C16 for Douglas-Peucker under any arithmetic on a total order: given distance_to_segment(A; A, B) never > 0 (checked bit-exactly by the `dist` stream) the call returns, the result is a sub-sequence with both ends, every input fix is accepted (T5')"),
         (M, "TV.C16.vw_threshold", "T10 (threshold semantics; ANY arithmetic on a linear order since this pass -- the areas are the COMPUTED ones, so it is a statement about the float run away from NaN): under T6's hypothesis every interior fix of Visvalingam's result spans with its two neighbours in the result a triangle of area > eps^2 (the '@aire' column stays consistent with the current neighbours; ARGMIN designates a smallest entry)"),
+        (M, "TV.C16.vw_any_tiebreak_sublist", "T13 (the freedom left by ties in Visvalingam; no hypothesis at all): whichever of several equally small triangles is eliminated at each pass (VwAnyResult: all such runs; the code takes ARGMIN's first minimum), the result is a sub-sequence of the input observations; any scalar type, any areas"),
+        (M, "TV.C16.vw_any_tiebreak", "T13: under T6's hypothesis (finite areas) every such run keeps the first and the last observation and >= 2 observations; any scalar type, any tolerance"),
+        (M, "TV.C16.vw_any_tiebreak_any_areas", "T13 without hypothesis (T12 for every run): whatever the areas and whichever of the equally small triangles goes first, sub-sequence, LAST observation kept, >= 2 observations of >= 2; any scalar type"),
+        (M, "TV.C16.vw_own_run_is_tiebreak_run", "T13: what visvalingam returns (first minimum at every pass) is one of these runs; no hypothesis"),
+        (M, "TV.C16.vw_all_levels_sound", "T13: every result of visvalingamAll -- the driver's level-by-level enumeration (states with the same observations merged, given up beyond `cap` states per level) that the correspondence check accepts for Visvalingam -- is such a run"),
+        (M, "TV.C16.vw_any_tiebreak_threshold", "T10 for every run of T13 (any arithmetic on a linear order, T6's hypothesis): every interior fix of the result spans with its neighbours in the result a triangle of computed area > eps^2"),
+        (M, "TV.C16.vw_first_kept_iff", "T14 (mixed columns: some areas finite, some infinite / NaN; any scalar type, any tolerance, observations pairwise different): Visvalingam keeps the FIRST observation if and only if every pass of its loop finds a minimum (some '@aire' entry is a number below ARGMIN's initial minimum +inf); T6 / T6' are the two extreme cases"),
     ]
     partial = []
     open_statements = [
@@ -181,17 +255,26 @@ class P(Prop):
         "pointwise statement about distance_to_segment -- `computed distance < eps  =>  true distance <= eps(1+1e-9) + 1e-13 M` -- which is not proved (an error analysis of the "
         "formula in IEEE arithmetic) but sampled: by the `dist` stream (|computed - exact| <= 1e-9 relative + 1e-12 M) and by the transfer check on whole tracks with that slack "
         "(T1, T2, T6, T12 and the scalar-independent T3 do apply to the Float model as they assume nothing about the scalar; T5', T10 assume only a total order)",
-        "Visvalingam when areas are infinite or NaN, i.e. not below ARGMIN's initial minimum +inf (coordinates ~1e154 and more, not ENU tracks): T12 (vw_any) now proves, "
-        "for every column and every pass, sub-sequence, last observation kept, >= 2 kept and termination; T6' proves that the first pass removes the FIRST fix when no "
-        "area is below the sentinel. Still open: an input-level characterisation of when the first observation survives a MIXED column (some areas finite, some not) -- "
+        "Visvalingam when areas are infinite or NaN, i.e. not below ARGMIN's initial minimum +inf (coordinates ~1e154 and more, not ENU tracks): T12 (vw_any) proves, "
+        "for every column and every pass, sub-sequence, last observation kept, >= 2 kept and termination; T14 (vw_first_kept_iff) now characterises the mixed "
+        "columns at the level of the passes: the first observation survives iff every pass finds an entry below the sentinel (T6 / T6' are the extreme cases). "
+        "Still open: the same condition expressed on the INPUT coordinates alone (which areas are recomputed to what depends on the whole run) -- "
         "compared with the model only (stream `wild`)",
         "T10 (vw_threshold) now holds for any arithmetic on a linear order, i.e. for the COMPUTED areas and the computed eps*eps; what it cannot say is how a computed "
         "area relates to the exact one: an exact area within an ulp of eps^2 may fall on either side (model and code agree bit for bit there: correspondence)",
+        "T13 (ties in Visvalingam): every result of visvalingamAll is proved to be a run with some choice among equally small triangles (soundness of what the "
+        "correspondence check accepts) and the code's own run is one; that the level-by-level enumeration with merged states returns ALL such runs when it does "
+        "not give up (completeness) is not proved -- a missing run would only show as a correspondence disagreement, never as an accepted wrong result. The "
+        "Track-level model (vwTrk) is the code's own run only: for another run the harness checks dict / uid / tid / base / no_data_value against the model "
+        "(they do not depend on the run) and positions / feature rows of the kept observations against the input",
     ]
     modelled = ("util/geometry.py distance_to_segment (l == 0 branch, normalised scalar product, clamp to the segment's box), "
                 "triangle_area, aire_visval; algo/simplification.py douglas_peucker (n <= 2 base case, first farthest fix by strict >, "
                 "dmax < eps, split L[0:imax] / L[imax:n], recursion, concatenation) and visvalingam (eps = eps * eps -- b704eae; `eps **= 2` before --, '@aire' column with NaN at "
                 "both ends, Operator.ARGMIN with its initial minimum float('inf') (68863c7; 1e300 before), break on area > eps, removal, two neighbour updates). "
+                "The freedom left by ties in Visvalingam (Model/SimplifyTie.lean): vwBody (the loop body for an arbitrary index), tieIds (ARGMIN's answer and every index "
+                "whose '@aire' entry equals it, when a minimum was found), vwNext / VReach / VwAnyResult (the runs with any choice among equally small triangles), "
+                "visvalingamAll (their level-by-level enumeration, run by the driver: command vwall). "
                 "On the Track object (Model/SimplifyTrack.lean): simplify(track, tolerance, mode, verbose) dispatch for every mode "
                 "(1, 2 modelled; 3 squaring and 4..8 optimalSimplification named, not modelled; others NameError); douglas_peucker's "
                 "Track(L) / Track([L[0], L[n-1]], uid, tid, base) / Track(L[0:imax], ...) + Track(L[imax:n], ...) with Track.__add__'s "
@@ -214,7 +297,7 @@ class P(Prop):
                "feature rows are as long as the feature dict says (C01's invariant)",
                "CPython's recursion limit (1000 frames) is outside the model: douglas_peucker recurses once per split level, T3 proves the depth is at most len(track), "
                "and a track of more than ~1000 fixes shaped so that every split peels one fix raises RecursionError (findings/C16.json, class dp-recursion-depth; "
-               "the harness generates tracks of at most 300 fixes)"]
+               "the harness generates split chains of at most ~800 levels: deep-* tracks)"]
     rule = ("[list-level streams] tracks of 1..9 fixes on integer lattices of side 2..6 (collinear runs, consecutive duplicates, revisited positions, closed loops "
             "forced with stated probabilities), quarter-step dyadic and 2-decimal float tracks; tolerances 1e-3..1e3 (ints and floats), random "
             "3-digit tolerances over 1e-6..1e6, tolerances far above any extent up to the largest double (1e154..1.797e308: eps*eps is infinite in Visvalingam) and tolerances equal to the float distance of a fix to the chord (the dmax == eps boundary); every fix carries its "
@@ -239,6 +322,14 @@ class P(Prop):
             "(5e-324..1e-30: eps*eps underflows to 0 in Visvalingam); 6 % of the `trk` calls pass the tolerance as numpy.float64. [stream `mode`] also mode given as float / bool. "
             "[stream `wild`] coordinates outside any ENU frame (1e101..1e308, inf, NaN, denormals; squares overflow, areas reach ARGMIN's sentinel): the oracle's "
             "domain is finite coordinates up to 1e100 (ENU metres), beyond it only model and code are compared. "
+            "[deep split chains, stream `trk`] 8 (quick) / 48 (thorough) tracks of 120..1040 fixes shaped so that Douglas-Peucker's recursion is 120..800 levels deep "
+            "(collinear oscillation of decreasing amplitude, constant zig-zag, boustrophedon survey of 120..520 lines, oscillation of growing amplitude; either axis, "
+            "closed or not), tolerance below the spacing (nothing may be dropped) or 0.1 / 3 / 30 times that; 80 % Douglas-Peucker through every entry point, 20 % Visvalingam. "
+            "[ties] Visvalingam's result is compared with the model's own run and, when different, accepted iff it is one of the runs with another choice among equally "
+            "small triangles (visvalingamAll, tracks of <= 60 fixes, up to 130 / 32 states per level; T13) -- as Douglas-Peucker's is with dpAllFuel (T7). "
+            "[well-formedness] mutate() and shrink() only propose cases the harness can build (parallel lists of equal length; a CSV description that the reader "
+            "can honour: csv_ok); a case whose INPUT cannot be built is answered {'harness': why} by impl(): silent in the oracle, a disagreement (never a failing "
+            "input) in the correspondence check when the case is well formed. "
             "non-trivial = at least 3 fixes (a fix can be dropped)")
 
     # ---------------------------------------------------------------- setup
@@ -395,6 +486,57 @@ class P(Prop):
             return [p[0] for p in pts], [p[1] for p in pts], "long-small-" + shape, sc
         return [p[0] for p in pts], [p[1] for p in pts], "long-" + shape, 1
 
+    def deep_track(self, rng, min_depth=0):
+        """several hundred fixes shaped so that Douglas-Peucker's split chain is DEEP (the farthest fix from the chord is next to an end,
+        the split L[0:imax] / L[imax:n] peels one or two fixes per level): the recursion is then 100..800 levels deep instead of the
+        ~log2(n) of a balanced track -- a collinear oscillation around a point with decreasing amplitude (depth ~ n), a constant zig-zag
+        (~0.85 n), a boustrophedon survey of parallel lines run alternately in both directions, only the line ends recorded (~ n/2), an
+        oscillation of growing amplitude (~ n/2). The tolerance is below the spacing: every corner deviates, nothing may be dropped.
+        (Depth stays below ~800: CPython's own limit of 1000 frames is the listed finding dp-recursion-depth.)"""
+        shape = rng.choice(["oscillation", "zigzag", "survey", "growing"])
+        depth = rng.randrange(max(120, min_depth), 801)
+        unit = rng.choice([1.0, 1.0, 0.5, 2.5, 10.0])
+        if shape == "oscillation":
+            n = depth + 1
+            pts = [(0.0, unit * ((-1) ** i) * (n - i)) for i in range(n)]
+            tol = 0.5 * unit
+        elif shape == "zigzag":
+            n = int(depth / 0.84) + 2
+            pts = [(unit * i, unit if i % 2 else 0.0) for i in range(n)]
+            tol = 0.3 * unit
+        elif shape == "survey":
+            depth = min(depth, 520)                        # (two fixes per level: keep the track below ~1000 fixes)
+            lines = depth + 1
+            w = rng.choice([20.0, 100.0])
+            pts = []
+            for k in range(lines):
+                pts += [(0.0, unit * k), (w * unit, unit * k)] if k % 2 == 0 else [(w * unit, unit * k), (0.0, unit * k)]
+            n = len(pts)
+            tol = 0.3 * unit
+        else:
+            depth = min(depth, 520)
+            n = 2 * depth + 1
+            pts = [(unit * i, unit * ((-1) ** i) * i) for i in range(n)]
+            tol = 0.5 * unit
+        if rng.random() < 0.25:
+            pts = [(b, a) for a, b in pts]                   # the same shape along the other axis
+        if rng.random() < 0.2:
+            pts[-1] = pts[0]                               # closed
+        return [p[0] for p in pts], [p[1] for p in pts], "deep-" + shape, tol
+
+    def deep_trk(self, rng, min_depth=0):
+        xs, ys, style, tol = self.deep_track(rng, min_depth)
+        n = len(xs)
+        algo = "dp" if rng.random() < 0.8 else "vw"
+        if algo == "vw" and n > 700:
+            xs, ys = xs[:700], ys[:700]
+            n = 700
+        names, rows = self.rand_table(rng, n)
+        return {"kind": "trk", "algo": algo, "xs": xs, "ys": ys, "tol": tol if rng.random() < 0.8 else tol * rng.choice([0.1, 3, 30]),
+                "uid": rng.choice([0, 7]), "tid": rng.choice([0, 9]), "base": None, "names": names, "rows": rows,
+                "via": rng.choice(["direct", "simplify", "simplify", "toplevel", "simplify_default"] if algo == "dp" else ["direct", "simplify"]),
+                "pre": [], "style": style}
+
     def rand_table(self, rng, n):
         """feature names and one row per fix; the first feature (when any) is the fix's index"""
         if n == 0:
@@ -540,6 +682,13 @@ class P(Prop):
             out.append(self.rand_trk(rng, long=True))
         for _ in range(1500 if tier == "quick" else 10000):
             out.append(self.wild_case(rng))
+        # deep split chains (several hundred fixes, recursion 120..800 levels deep): few -- each costs ~0.2-1 s --, spread over the list so
+        # that the engine's shards share them; the first two of a run are at least 300 / 500 levels deep
+        ndeep = 8 if tier == "quick" else 48
+        deep = [self.deep_trk(rng, 500 if i == 0 else (300 if i == 1 else 0)) for i in range(ndeep)]
+        step = max(1, len(out) // (ndeep + 1))
+        for i, c in enumerate(deep):
+            out.insert(min(len(out), (i + 1) * step + i), c)
         if self.listed(FINDING_AIRE):
             for _ in range(300):
                 c = self.rand_trk(rng)
@@ -691,7 +840,7 @@ class P(Prop):
         got = [[o.position.getX(), o.position.getY(), o.position.getZ(), o.timestamp.toAbsTime()] for o in tr.getObsList()]
         want = [[fv(x), fv(y), z, t] for x, y, z, t in zip(case["xs"], case["ys"], zs, ts)]
         if not same_rows(got, want) or tr.no_data_value != nd or tr.getListAnalyticalFeatures() != list(names):
-            raise RuntimeError("the CSV reader did not produce the track described by the case: %s" % (got,))
+            raise HarnessCase("the CSV reader did not produce the track described by the case: %s" % (got,))
         return tr
 
     def snapshot(self, tr):
@@ -719,7 +868,9 @@ class P(Prop):
             return case["tid"]
         return tid
 
-    def call(self, tr, algo, tol, via, net_pos=0):
+    def prepare(self, tr, algo, tol, via, net_pos=0):
+        """everything that has to exist before the call under test (the network around an edge geometry): harness plumbing.
+        Returns a thunk that makes the call of the property's entry point and nothing else"""
         S = self.S
         mode = S.MODE_SIMPLIFY_DOUGLAS_PEUCKER if algo == "dp" else S.MODE_SIMPLIFY_VISVALINGAM
         if via == "network":
@@ -729,17 +880,22 @@ class P(Prop):
             geoms = [self.mk_trk(OTHER_EDGE) for _ in range(net_pos)] + [tr]
             for i, g in enumerate(geoms):
                 net.addEdge(NW.Edge(i, g), NW.Node(2 * i, self.ENU(i, 0, 0)), NW.Node(2 * i + 1, self.ENU(i, 1, 0)))
-            net.simplify(tol, mode)
-            return net.EDGES[net_pos].geom
+            def run():
+                net.simplify(tol, mode)
+                return net.EDGES[net_pos].geom
+            return run
         if via == "simplify":
-            return S.simplify(tr, tol, mode)
+            return lambda: S.simplify(tr, tol, mode)
         if via == "simplify_kw":
-            return S.simplify(track=tr, tolerance=tol, mode=mode, verbose=False)
+            return lambda: S.simplify(track=tr, tolerance=tol, mode=mode, verbose=False)
         if via == "simplify_default":
-            return S.simplify(tr, tol)
+            return lambda: S.simplify(tr, tol)
         if via == "toplevel":
-            return self.tracklib.simplify(tr, tol, mode, False)
-        return S.douglas_peucker(tr, tol) if algo == "dp" else S.visvalingam(tr, tol)
+            return lambda: self.tracklib.simplify(tr, tol, mode, False)
+        return (lambda: S.douglas_peucker(tr, tol)) if algo == "dp" else (lambda: S.visvalingam(tr, tol))
+
+    def call(self, tr, algo, tol, via, net_pos=0):
+        return self.prepare(tr, algo, tol, via, net_pos)()
 
     def impl_mode(self, case):
         """which function does simplify(track, tol, mode) call? (the four candidates are replaced by recorders for the call)"""
@@ -772,7 +928,10 @@ class P(Prop):
             return self.impl_mode(case)
         if k == "trk":
             return self.impl_trk(case)
-        tr = self.mk(case)
+        try:
+            tr = self.mk(case)
+        except (Exception, SystemExit) as e:
+            return {"harness": "the track of the case could not be built: %r" % (e,)}
         if case["via"] == "simplify":
             mode = self.S.MODE_SIMPLIFY_DOUGLAS_PEUCKER if k == "dp" else self.S.MODE_SIMPLIFY_VISVALINGAM
             res = self.S.simplify(tr, case["tol"], mode)
@@ -780,6 +939,8 @@ class P(Prop):
             res = self.S.douglas_peucker(tr, case["tol"])
         else:
             res = self.S.visvalingam(tr, case["tol"])
+        if not isinstance(res, self.Track):
+            return {"err": "err:not-a-track", "detail": "the call returned %r" % (res,)}
         kept, xy = [], []
         for j in range(res.size()):
             o = res.getObs(j)
@@ -791,22 +952,30 @@ class P(Prop):
         return {"kept": kept, "xy": xy, "input_size_after": tr.size()}
 
     def impl_trk(self, case):
-        tr = self.mk_trk(case)
-        before = self.snapshot(tr)
-        other = None
-        for a, t, which in case.get("pre", []):
-            if which == "same":
-                target = tr
-            else:
-                if other is None:
-                    other = self.mk_trk(OTHER_EDGE)
-                target = other
-            try:
-                self.call(target, a, t, "direct")
-            except Exception:
-                pass                                          # an earlier call that fails is the business of its own case
-        tol = self.np.float64(case["tol"]) if case.get("tol_form") == "np64" else case["tol"]
-        res = self.call(tr, case["algo"], tol, case["via"], case.get("net_pos", 0))
+        # --- building the input (and the state left by earlier calls): harness plumbing, never judged as the implementation's failure
+        try:
+            tr = self.mk_trk(case)
+            before = self.snapshot(tr)
+            other = None
+            for a, t, which in case.get("pre", []):
+                if which == "same":
+                    target = tr
+                else:
+                    if other is None:
+                        other = self.mk_trk(OTHER_EDGE)
+                    target = other
+                try:
+                    self.call(target, a, t, "direct")
+                except Exception:
+                    pass                                      # an earlier call that fails is the business of its own case
+            tol = self.np.float64(case["tol"]) if case.get("tol_form") == "np64" else case["tol"]
+            run = self.prepare(tr, case["algo"], tol, case["via"], case.get("net_pos", 0))
+        except (Exception, SystemExit) as e:
+            return {"harness": e.args[0] if isinstance(e, HarnessCase) else "the input of the case could not be built: %r" % (e,)}
+        # --- the call under test: an exception from here on is the implementation's
+        res = run()
+        if not isinstance(res, self.Track):
+            return {"err": "err:not-a-track", "detail": "the call returned %r" % (res,)}
         after = self.snapshot(tr)
         out = self.snapshot(res)
         inp_ids = set(before["ids"])
@@ -854,7 +1023,11 @@ class P(Prop):
                 line = "C16.trk %s %s" % (head, geom(case, rows))
             if algo == "dp" and len(case["xs"]) <= 9:      # the runs reachable with another choice among equally far fixes
                 return [line, "C16.dp %s %s %s" % (fbits(case["tol"]), fl(case["xs"]), fl(case["ys"]))]
+            if algo == "vw" and 3 <= len(case["xs"]) <= VW_ALL_MAX_N:   # ... among equally small triangles (T13)
+                return [line, "C16.vwall %s %s %s %d" % (fbits(case["tol"]), fl(case["xs"]), fl(case["ys"]), vw_cap(len(case["xs"])))]
             return [line]
+        if k == "vw" and 1 <= len(case["xs"]) <= VW_ALL_MAX_N:
+            return ["C16.vwall %s %s %s %d" % (fbits(case["tol"]), fl(case["xs"]), fl(case["ys"]), vw_cap(len(case["xs"])))]
         return ["C16.%s %s %s %s" % (k, fbits(case["tol"]), fl(case["xs"]), fl(case["ys"]))]
 
     def decode(self, case, replies):
@@ -885,10 +1058,14 @@ class P(Prop):
                    "uid": int(parts[1]), "tid": int(parts[2]), "base": None if parts[3] == "_" else int(parts[3]),
                    "nodata": None if (len(parts) < 8 or parts[7] == "_") else bitsf(parts[7])}
             if len(replies) > 1 and not replies[1].startswith("err:") and replies[1] != "bad-request":
-                out["all"] = [idx(t) for t in replies[1].split(" ")[1].split(";")]
+                alls = replies[1].split(" ")[1]
+                if alls != "toomany":                       # (Visvalingam: too many tied states to enumerate -> only the code's own run)
+                    out["all"] = [idx(t) for t in alls.split(";")]
             return out
         out = {"kept": kept, "xy": [[fv(case["xs"][i]), fv(case["ys"][i])] for i in kept], "input_size_after": len(case["xs"])}
         if k == "dp":
+            out["all"] = [idx(s) for s in parts[1].split(";")]
+        elif len(parts) > 1 and parts[1] != "toomany":
             out["all"] = [idx(s) for s in parts[1].split(";")]
         return out
 
@@ -918,6 +1095,23 @@ class P(Prop):
             if impl_out["nodata"] is not None:
                 return "no_data_value of a Douglas-Peucker result: impl=%r model=None" % (impl_out["nodata"],)
             return self.classes_ok(case, impl_out)
+        if case["algo"] == "vw" and impl_out["kept"] in model_out.get("all", []):
+            # another choice among equally small triangles (free in the property; T13: every such run is a sub-sequence with both ends).
+            # The Track around the observations does not depend on the run: feature dict, uid/tid/base, no_data_value are the model's;
+            # the observations returned must be the input's (position, feature row)
+            for f in ("names", "cols", "uid", "tid", "base", "nodata"):
+                if impl_out[f] != model_out[f]:
+                    return "%s of the result: impl=%r model=%r" % (f, impl_out[f], model_out[f])
+            n = len(case["xs"])
+            kept = impl_out["kept"]
+            if all(isinstance(i, int) and 0 <= i < n for i in kept):
+                zs = case.get("zs") or [0] * n
+                if not same_rows(impl_out["xyz"], [[fv(case["xs"][i]), fv(case["ys"][i]), zs[i]] for i in kept]):
+                    return "positions of the kept observations differ from the input's: %s" % (impl_out["xyz"],)
+                want = [[fv(v) for v in case["rows"][i]] if case["names"] else [] for i in kept]
+                if not case.get("orphan") and not same_rows(impl_out["rows"], want):
+                    return "feature rows of the kept observations differ from the input's: %s" % (impl_out["rows"],)
+            return self.classes_ok(case, impl_out)
         return "kept indices: impl=%s model=%s" % (impl_out["kept"], model_out["kept"])
 
     def classes_ok(self, case, impl_out):
@@ -928,6 +1122,11 @@ class P(Prop):
         return None
 
     def compare(self, case, impl_out, model_out):
+        if isinstance(impl_out, dict) and "harness" in impl_out:
+            # the harness could not build the input: nothing was run. Reported (as a disagreement, never as a failing input) when the
+            # case is one the generators stand for -- then the plumbing or a function it relies on (Track/Obs constructors,
+            # createAnalyticalFeature, the CSV reader) no longer does what the check was written against
+            return ("harness: %s" % impl_out["harness"]) if well_formed(case) else None
         if case["kind"] == "trk":
             return self.compare_trk(case, impl_out, model_out)
         if case["kind"] == "mode":
@@ -951,14 +1150,19 @@ class P(Prop):
             return "the input track was modified: size %s" % impl_out["input_size_after"]
         if impl_out["kept"] == model_out["kept"]:
             return None if same_rows(impl_out["xy"], model_out["xy"]) else "positions differ: impl=%s model=%s" % (impl_out["xy"], model_out["xy"])
-        if case["kind"] == "dp" and impl_out["kept"] in model_out["all"]:
-            # another choice among equally far fixes: a legitimate Douglas-Peucker run (the property leaves the tie free)
+        if impl_out["kept"] in model_out.get("all", []):
+            # another choice among equally far fixes (Douglas-Peucker, T7) / among equally small triangles (Visvalingam, T13): a
+            # legitimate run, the property leaves the tie free; the positions are the oracle's business
             return None
         return "kept indices: impl=%s model=%s" % (impl_out["kept"], model_out["kept"])
 
     # ---------------------------------------------------------------- oracle (transfer)
     def spec(self, case, out):
         k = case["kind"]
+        if isinstance(out, dict) and "harness" in out:
+            return None                                      # the input was not built: nothing to judge (see compare)
+        if k in ("dp", "vw", "trk") and not well_formed(case):
+            return None                                      # not an input: lists of different lengths, a CSV description no file yields
         if k == "dist":
             if "err" in out:
                 return "distance_to_segment%s raised %s" % (tuple(case["p"]), out["err"])
@@ -1083,8 +1287,8 @@ class P(Prop):
         if case["kind"] == "trk":
             c["rows"] = [list(r) for r in case["rows"][:i] + case["rows"][j:]]
             if c["rows"] and c["names"]:
-                for j, r in enumerate(c["rows"]):
-                    r[0] = j                                # the first feature stays the index
+                for m, r in enumerate(c["rows"]):
+                    r[0] = m                                # the first feature stays the index
             if case.get("zs"):
                 c["zs"] = case["zs"][:i] + case["zs"][j:]
             if case.get("ts"):
@@ -1092,6 +1296,18 @@ class P(Prop):
         return c
 
     def shrink(self, case):
+        """smaller variants; only well-formed ones (a variant the harness cannot build is not an input)"""
+        for c in self._shrink(case):
+            if well_formed(c):
+                yield c
+
+    def mutate(self, case, rng):
+        """neighbours for the failing-input search; only well-formed ones, inside the domain the case was generated in"""
+        for c in self._mutate(case, rng):
+            if well_formed(c):
+                yield c
+
+    def _shrink(self, case):
         if case["kind"] not in ("dp", "vw", "trk"):
             return
         n = len(case["xs"])
@@ -1144,7 +1360,7 @@ class P(Prop):
             if r != case:
                 yield r
 
-    def mutate(self, case, rng):
+    def _mutate(self, case, rng):
         if case["kind"] not in ("dp", "vw", "trk") or case.get("wild"):
             return
         n = len(case["xs"])
